@@ -58,4 +58,37 @@ CHECKS = {
         "min_obs": {"clean_eof": 20, "bytes_read": 100000},
         "timeout": {"quick": 1200, "thorough": 14000},
     },
+    "C13": {
+        "scenarios": [("C02-udp", "vsim"), ("C03-close", "vsim", 0.5), ("C14-sweep", "vsim", 0.5)],
+        "side_only": True,
+        "rule": "wire monitor over the hub logs of the C02 / C03 / C14 UDP workloads (fault plans as described there); every emitted "
+                "data/ack datagram's cumulative ack is compared with the contiguous set of that session's datagrams the hub had "
+                "delivered intact to its sender; all transmissions of a (session, direction, seq) are compared; first transmissions "
+                "must assign seq 0,1,2,... without gaps; non-trivial = the run contained loss/duplication/delay; distinct as in C02",
+        "technique": "runtime monitor: offline checker over the recorded hub event log (ordering, ack-vs-delivered, retransmission "
+                     "identity), datagrams decoded by the independent reference codec",
+        "text": "Ack, retransmission-identity and sequence-assignment invariants are evaluated on every datagram of every faulty UDP run; "
+                "held on the observed executions only.",
+        "note": "trusted: hub order (a datagram counts as delivered when queued at the receiving socket, under the hub lock), reference codec",
+        "design_ref": "DESIGN.md section 4, C13",
+        "min_obs": {"acks_checked": 5000, "retransmissions": 100, "seq_groups": 1000},
+        "timeout": {"quick": 1200, "thorough": 14000},
+    },
+    "C14": {
+        "scenarios": [("C14-sweep", "vsim"), ("C02-udp", "vsim", 0.5), ("C01-tcp", "vsim", 0.5)],
+        "rides_on": ["C14"],
+        "side_only": True,
+        "rule": "configuration sweep: MTU per side (8 boundary values quick, all 1280..1500 thorough) x padding maxima {unset,0,1,128,255,"
+                "random} middle/end x low entropy {off,32,40,48,56} x rotations x first-write piggy-back sizes 0..1025 x writes of 1..3 "
+                "fragments +-1, with forced retransmissions of open/data/ack; plus the C02 and C01 traffic; every emitted datagram and "
+                "segment is measured; distinct = hash of (MTUs, pattern classes, piggy-back)",
+        "technique": "runtime monitor: size and field-limit checks on every emitted datagram/segment, decoded by the reference codec at "
+                     "the simulated network boundary",
+        "text": "Every datagram emitted in the sweep is measured against the sender's configured MTU and every decoded payload against "
+                "the documented limits, including retransmissions, acks and control segments.",
+        "note": "trusted: simnet boundary (datagram length as written by the sender), reference codec",
+        "design_ref": "DESIGN.md section 4, C14",
+        "min_obs": {"segments": 5000, "max_datagram": 1280},
+        "timeout": {"quick": 1200, "thorough": 14000},
+    },
 }
